@@ -35,14 +35,14 @@ def isHtml : Stage D E → Bool
   | .html _ => true
   | _ => false
 
-/-- state invariant of a stage: for a replace visitor the tokenizer law `TagSpan` is available and every buffered
+/-- state invariant of a stage: for a replace visitor the tokenizer law `TagSpanS` is available and every buffered
 element starts with `<` -/
 def StOK (tk : Tokenize) : Stage D E → Prop
-  | .html s => s.visitor.kind = .replace → TagSpan tk ∧ HInv s.stack
+  | .html s => s.visitor.kind = .replace → TagSpanS tk ∧ HInv s.stack
   | _ => True
 
 section
-variable {tk : Tokenize} (hl : Lossless tk) (ev : Bytes → Bytes → Bool) (codec : Codec D E)
+variable {tk : Tokenize} (hl : LosslessAll tk) (ev : Bytes → Bytes → Bool) (codec : Codec D E)
 include hl
 
 theorem Stage.filter_spec (st st' : Stage D E) (x o : Bytes) (hp : isPlain st = true) (hok : StOK tk st)
@@ -147,7 +147,7 @@ def AllOK (tk : Tokenize) (items : List (Stage D E)) : Prop := ∀ st ∈ items,
 def htmlCount (items : List (Stage D E)) : Nat := (items.filter isHtml).length
 
 section
-variable {tk : Tokenize} (hl : Lossless tk) (ev : Bytes → Bytes → Bool) (codec : Codec D E)
+variable {tk : Tokenize} (hl : LosslessAll tk) (ev : Bytes → Bytes → Bool) (codec : Codec D E)
 include hl
 
 /-- `do_filter` succeeded: the invariant advances by the chunk and the output -/
@@ -443,7 +443,7 @@ structure CI (tk : Tokenize) (ES : List (Stage D E) → Prop) (rels : List Strea
   inv : if ch.inError then ∀ y, Comp rels (c ++ y) (e ++ y) else Inv ch.items c e
 
 section
-variable {tk : Tokenize} (hl : Lossless tk) (ev : Bytes → Bytes → Bool) (codec : Codec D E)
+variable {tk : Tokenize} (hl : LosslessAll tk) (ev : Bytes → Bytes → Bool) (codec : Codec D E)
 include hl
 
 /-- `do_filter` never changes the kinds of the stages -/
